@@ -43,6 +43,7 @@ def run(prog, chk):
     attribute_hygiene(prog, chk)
     wiring(prog, chk)
     tspans(prog, chk)
+    text_not_altered(prog, chk)
     from props import geomalg
     geomalg.check_sites(prog, chk, "C19")
     geomalg.check(prog, chk, "C19", floor=28)
@@ -202,3 +203,37 @@ def tspans(prog, chk):
                     r = pta.reach(some_t, avoid=pushes)
                     ok = h not in r and nx[0][0] not in r
     chk.ob(ok, "A13.tspan-per-line", "process_text_attr", pta.where(), "every cycle of the line loop pushes one <tspan> element", "a line of multi-line text can be skipped without a <tspan>")
+
+
+# character-altering / character-dropping string operations; the ones the text pipeline applies today, each reviewed
+TEXT_ALTERING = (
+    "trim", "trim_start", "trim_end", "trim_matches", "trim_start_matches", "trim_end_matches", "replace", "replacen", "to_lowercase", "to_uppercase",
+    "to_ascii_lowercase", "to_ascii_uppercase", "strip_prefix", "strip_suffix", "split_whitespace", "truncate", "retain", "dedup", "lines", "split", "splitn",
+    "rsplit", "split_once", "rsplit_once", "split_terminator", "split_ascii_whitespace", "escape_default", "escape_debug",
+)
+TEXT_ALTERING_OK = {
+    ("svgdx::text::process_text_attr", "lines"): (1, "one <tspan> per line: the line breaks produced by text_string() are the separators"),
+    ("svgdx::text::process_text_attr", "replace"): (1, "d-text-pre: blanks become U+00A0 so that they are not collapsed by the renderer (documented)"),
+}
+
+
+def text_not_altered(prog, chk):
+    """the text pipeline (src/text.rs) applies no character-dropping / character-altering string operation to the author's
+    text beyond the reviewed ones"""
+    import collections
+    from props.C01 import strip_closures
+
+    seen = collections.Counter()
+    n = 0
+    for b in prog.bodies.values():
+        if not b.path.startswith("svgdx::text::"):
+            continue
+        chk.touch(b)
+        for (bb, t, c) in b.call_sites(lambda c: c.path.split("::")[-1] in TEXT_ALTERING and ("str" in c.path.lower() or "string" in c.path.lower())):
+            k = (strip_closures(b.path), c.path.split("::")[-1])
+            seen[k] += 1
+            n += 1
+            ent = TEXT_ALTERING_OK.get(k)
+            ok = ent is not None and seen[k] <= ent[0]
+            chk.ob(ok, "A14.text-verbatim", f"{k[0].replace('svgdx::', '')}:{k[1]}#{seen[k]}", b.where(bb, t.get("line")), f"reviewed: {ent[1] if ent else ''}", f"{b.short} applies str::{k[1]}() in the text pipeline; this is not one of the reviewed places: characters of the author's text (blanks, backslashes, ...) can be dropped or changed on their way to the <text>/<tspan> content", by="table")
+    chk.floor("A14.text-verbatim", n, 2, "character-altering string operation in src/text.rs")
